@@ -23,7 +23,7 @@ ASSUMPTIONS = [
 ]
 MANIFEST = {'text': 'proof (dominators, must-pass-through, provenance) of: no-overwrite and confinement of auto-save, Complete only from the size/sequence-checked sites, payload appended only for the expected package '
                     'with paired counters, only Complete transfers reach the save table.'
-                    ' Added: Complete on the data path requires size equality on every path; whenever the received-payload counter advances the package is appended (unless nothing is kept). Added: the index announced in tree items and the keys of the save table are positions in self.transfers (enumerate directly over it). Added: the payload counter is reset only together with the data buffer; an expected package of exactly buffer_size bytes is always accepted. Added: every handled package is counted as received on every path to check_finished. Added: the numeric argument decoder selects from_be_bytes / from_le_bytes by the byte order of the argument and looks at a fixed byte only for one-byte values.'}
+                    ' Added: Complete on the data path requires size equality on every path; whenever the received-payload counter advances the package is appended (unless nothing is kept). Added: the index announced in tree items and the keys of the save table are positions in self.transfers (enumerate directly over it). Added: the payload counter is reset only together with the data buffer; an expected package of exactly buffer_size bytes is always accepted. Added: every handled package is counted as received on every path to check_finished. Added: the numeric argument decoder selects from_be_bytes / from_le_bytes by the byte order of the argument and looks at a fixed byte only for one-byte values. Added: the auto-save base name is cut by Path::file_name() only (no second, separator-specific way that keeps other directory parts).'}
 
 MOD = 'adlt::plugins::file_transfer::'
 CREATE = re.compile(r'^(std::fs::File::create|std::fs::File::create_new|std::fs::OpenOptions::open|std::fs::write|std::fs::File::options|std::fs::rename|std::fs::copy|std::fs::remove_file)$')
@@ -157,7 +157,28 @@ def check_autosave(F, b, blk, V1, V2):
             sh = show(e)
             if 'Clone::clone' in sh and '.file_name' in sh:
                 raw = True
-    if has_fn and not raw:
+    # .. and by nothing else: a second way to cut the name (split at '\\', rfind('/'), strip_prefix ..) next to Path::file_name keeps
+    # whatever directory parts that way does not know (`C:\\logs\\../x`, `a\\/abs/p`)
+    from prov import Prov, calls_in
+    pr2 = Prov(c2)
+    cut = set()
+    for x in bb.blocks:
+        if x.cleanup:
+            continue
+        ops_ = []
+        for st in x.stmts:
+            if st.k == 'assign' and st.place.is_local and st.place.l == 0:
+                ops_ += st.rv_operands()
+        if x.term.k == 'call' and x.term.dest.is_local and x.term.dest.l == 0:
+            ops_ += x.term.args
+        for o_ in ops_:
+            for cpath in calls_in(pr2.operand(o_, at=x.i)):
+                if re.search(r'(str|String)[^ ]*::(rsplit|split|rsplitn|splitn|rsplit_once|split_once|rfind|find|trim_start_matches|trim_end_matches|trim_matches|strip_prefix|strip_suffix|split_at|split_terminator|rsplit_terminator|get|get_unchecked|char_indices|rmatch_indices|match_indices)$', cpath) or \
+                        (cpath.endswith('Index::index') and False):
+                    cut.add(cpath.split('::')[-1])
+    if has_fn and not raw and cut:
+        V2.violation(('base-name-second-cut', bb.path, '+'.join(sorted(cut))), 'base_name_for_filetransfer cuts the transfer file name also by %s, not only by Path::file_name(): directory parts that this second way does not know survive in the base name and are joined onto the auto-save directory' % ', '.join(sorted(cut)), where=bb.loc(None))
+    elif has_fn and not raw:
         V2.ok(sample={'base_name': 'derived from Path::file_name() (or a fixed placeholder)'})
     else:
         V2.violation(('base-name-raw', bb.path), 'base_name_for_filetransfer no longer derives the name from Path::file_name() (directory parts of the transfer file name are kept)', where=bb.loc(None))
